@@ -76,7 +76,7 @@ PROPS = {
   "theorems": [P + "C08." + t for t in ["every_interleaving_owned", "flatten_disjoint", "concurrent_calls_hold_disjoint_objects", "shared_schema_only_read", "closures_keep_no_state", "result_independent_of_recycled_contents"]],
   "streams": [st("conc", 30000, 2000000), st("pool", 300, 10000)],
   "trusted_base": ["PARTIAL: schedule-independence is proved in the ownership / interleaving model (every interleaving of acquire/release steps is an op list covered by the C07 invariant); data-race freedom in the sense of the Go memory model is NOT expressible in the model — the -race stress stream is supporting evidence for the model's assumptions",
-                   "regenerated (go/ast): Gen.schemaWrites = [] (no write to a schema receiver or package variable inside process/validate/Parse/Validate)",
+                   "regenerated (go/ast): Gen.schemaWrites = [] (no assignment, inc/dec or in-place mutator call — Store, Swap, LoadOrStore, Do, ... — rooted at a schema receiver or package variable inside process/validate/Parse/Validate or any function of the schema files reachable from them)",
                    "regenerated (go/ast): Gen.closureWrites = [] (no function literal of the root, internals or conf packages that outlives its builder assigns to a captured or package-level variable)",
                    "assumed: sync.Pool's own atomicity; conf.IssueFormatter and conf.Coercers are not reassigned while calls are running"],
   "assumptions": ["global configuration (conf.IssueFormatter, conf.Coercers, i18n) is set up before schemas are used concurrently"],
